@@ -321,12 +321,14 @@ class BestInv(WhileInv):
     def havoc(self, I, st, name):
         return AbsErr(smt.fresh("best", V))
 
+    def _best(self, st):
+        return st.env[getattr(self, "names", {}).get("best", "best")]
+
     def formula(self, I, st):
-        b = st.env["best"]
-        return closure(b.t)
+        return closure(self._best(st).t)
 
     def variant(self, I, st):
-        return depth(st.env["best"].t)
+        return depth(self._best(st).t)
 
 
 def best_match_task_run(self, res):
